@@ -302,6 +302,17 @@ pub fn gof(seed: u64, n: usize) -> (Vec<Finding>, J) {
     if d > crit {
         out.push(finding("C14", "not_uniform:so2", format!("so2.angle: KS distance {d} > {crit}")));
     }
+    // SO(2) bounds reaching beyond the circle are clamped by the constructor: uniform on the CLAMPED interval
+    for (lo, hi) in [(-4.0f64, 4.0f64), (1.0, 5.0), (-7.0, -2.0)] {
+        let sp = oxmpl::base::space::SO2StateSpace::new(Some((lo, hi))).unwrap();
+        let (clo, chi) = (lo.max(-PI), hi.min(PI));
+        let a: Vec<f64> = (0..n).map(|_| sp.sample_uniform(&mut rng).unwrap().value).collect();
+        let d = ks(a, |x| ((x - clo) / (chi - clo)).clamp(0.0, 1.0));
+        stats.push((format!("so2.clamped({lo},{hi})"), d));
+        if d > crit {
+            out.push(finding("C14", "not_uniform:so2_clamped_bounds", format!("so2 bounds ({lo},{hi}) clamped to ({clo},{chi}): KS distance {d} > {crit}")));
+        }
+    }
     // SO(3): rotation angle law (theta - sin theta)/pi, and uniform axis direction (z-coordinate uniform on [-1,1])
     let so3 = oxmpl::base::space::SO3StateSpace::new(None).unwrap();
     let mut th = vec![];
